@@ -310,21 +310,23 @@ def _deref_typing():
             obs: List[Ob] = []
             props = ["C06", "C05", "C03"]
             for cname in ("MNEMONIC",):
-                for perm in itertools.permutations(fields):
+                for perm, zero in [(pm, z) for pm in itertools.permutations(fields) for z in (False, True)
+                                   if not z or any(f.startswith("constant") for f in fields)]:
                     levels: Dict[str, str] = {}
                     log = BuildLog()
                     holder: Dict[str, Any] = {}
 
-                    def fn(perm=perm):
+                    def fn(perm=perm, zero=zero):
                         log.calls.clear()
-                        kids = [untyped(f, [untyped(Name("v_" + f), cid="v_" + f)], cid=f) for f in perm]
+                        # zero: the numeric fields hold the YAML integer 0 (what an unquoted 0 / 0x0 loads as) -- a value like any other
+                        kids = [untyped(f, [untyped(0 if (zero and f.startswith("constant")) else Name("v_" + f), cid="v_" + f)], cid=f) for f in perm]
                         holder["ctx"] = CTX[cname]()
                         with patched_build(log, levels):
                             b = getattr(J.ast_builder, BUILDER_OF_CTX[cname])()
                             return b.build(untyped("$deref", kids, cid="root"), holder["ctx"])
                     run_ = sym_run(fn)
                     for i, p in enumerate(run_.paths):
-                        base = f"NodeBuilder.build:{sid}:{'-'.join(x[:1] + x.split('_')[-1][:1] for x in perm)}:p{i}"
+                        base = f"NodeBuilder.build:{sid}:{'-'.join(x[:1] + x.split('_')[-1][:1] for x in perm)}{':zero' if zero else ''}:p{i}"
                         if p.kind != "ret":
                             obs.append(simple_ob(base + ":EXC", NB, "EXC", "no exception", False, props, detail=repr(p.value), witness=type(p.value).__name__))
                             continue
